@@ -57,6 +57,11 @@ pub struct Package {
     pub sort_rank: Vec<usize>,
     pub favored: Option<usize>,
     pub locked: Option<usize>,
+    /// the provider reports a lock on a solvable it no longer offers: `Candidates::locked` is the
+    /// last entry of `unlisted` (which must exist), `locked` is `None`. "The only solvable that
+    /// can be selected" is then not a candidate, so no listed candidate may be installed.
+    #[serde(default)]
+    pub lock_gone: bool,
     pub hint: Hint,
     /// solvables that belong to this package name but are not listed by get_candidates
     /// (only reachable as soft requirements; mirrors tests/solver.rs::test_solve_with_additional)
@@ -104,6 +109,17 @@ pub struct Problem {
     pub reqs: Vec<Req>,
     pub constraints: Vec<usize>,
     pub soft: Vec<SRef>,
+}
+
+impl Package {
+    /// Is the listed candidate `idx` ruled out by the package's lock?
+    pub fn locked_out(&self, idx: usize) -> bool {
+        self.lock_gone || self.locked.is_some_and(|l| l != idx)
+    }
+
+    pub fn has_lock(&self) -> bool {
+        self.lock_gone || self.locked.is_some()
+    }
 }
 
 impl Universe {
@@ -262,9 +278,13 @@ impl Universe {
                 p.favored
                     .map(|f| format!(" fav={}", p.cands[f].version))
                     .unwrap_or_default(),
-                p.locked
-                    .map(|f| format!(" lock={}", p.cands[f].version))
-                    .unwrap_or_default(),
+                if p.lock_gone {
+                    format!(" lock=GONE({})", p.unlisted.last().map(|c| c.version).unwrap_or(0))
+                } else {
+                    p.locked
+                        .map(|f| format!(" lock={}", p.cands[f].version))
+                        .unwrap_or_default()
+                },
                 match &p.hint {
                     Hint::None => "none".to_string(),
                     Hint::All => "all".to_string(),
@@ -439,6 +459,9 @@ pub fn check_well_formed(u: &Universe, p: &Problem) -> Result<(), String> {
             if o >= n {
                 return Err(format!("pkg {pi}: favored/locked out of range"));
             }
+        }
+        if pk.lock_gone && (pk.locked.is_some() || pk.unlisted.is_empty() || pk.missing) {
+            return Err(format!("pkg {pi}: lock_gone needs an unlisted solvable, no listed lock and a known package"));
         }
         if let Hint::Some(v) = &pk.hint {
             if v.iter().any(|&i| i >= n) {
